@@ -598,7 +598,7 @@ impl<'a> Interp<'a> {
                     .iter()
                     .filter_map(|(s, v)| match s {
                         DevSig::Cfg(i) => Some((self.sigs[*i].name.clone(), *v)),
-                        DevSig::Unknown => None,
+                        DevSig::Unknown | DevSig::Twin(..) => None,
                     })
                     .collect();
                 self.prev_read = std::mem::replace(&mut self.last_read, answers);
@@ -611,7 +611,7 @@ impl<'a> Interp<'a> {
             .iter()
             .filter_map(|(s, v)| match s {
                 DevSig::Cfg(i) => Some((self.sigs[*i].name.clone(), *v)),
-                DevSig::Unknown => None,
+                DevSig::Unknown | DevSig::Twin(..) => None,
             })
             .collect();
         self.prev_read = std::mem::replace(&mut self.last_read, answers.clone());
@@ -933,7 +933,7 @@ pub fn run(p: &Program, sigs: &[Sig], script: &Script, opts: RefOpts) -> RefOutc
                 .iter()
                 .filter_map(|(s, v)| match s {
                     DevSig::Cfg(i) => Some((sigs[*i].name.clone(), *v)),
-                    DevSig::Unknown => None,
+                    DevSig::Unknown | DevSig::Twin(..) => None,
                 })
                 .collect();
             it.prev_read = HashMap::new();
